@@ -385,16 +385,15 @@ pub fn run_once(s: &Scenario, scratch: &Path) -> Result<RunResult, String> {
             path = format!("{}:{}", path_dir.display(), p.to_string_lossy());
         }
     }
-    let out = cmd
-        .env("PATH", path)
+    cmd.env("PATH", path)
         .env("TMPDIR", &tmp)
         .env("CARGO_MANIFEST_DIR", &krate)
         .env("VERIF_STUB_DIR", &stub)
         .env("RUST_BACKTRACE", "0")
         .current_dir(&krate)
-        .stdin(Stdio::null())
-        .output()
-        .map_err(|e| format!("spawn simtest: {e}"))?;
+        .stdin(Stdio::null());
+    // a scenario that does not end is killed (exit status None: judged as ended abnormally)
+    let (out, _killed) = crate::pool::output_limited(&mut cmd).map_err(|e| format!("spawn simtest: {e}"))?;
     let stdout = String::from_utf8_lossy(&out.stdout);
     let positions = stdout
         .lines()
